@@ -19,8 +19,8 @@ HARNESS_DIR = os.path.join(VERIF, 'harness')
 SCRATCH_ROOT = os.environ.get('VERIF_SCRATCH_ROOT', '/var/tmp/uflow-verif')
 CACHE = os.environ.get('VERIF_CACHE', '/var/tmp/uflow-verif-cache')
 KANI_HOME = os.path.expanduser('~/.kani/kani-0.68.0')
-NCPU = int(os.environ.get('VERIF_JOBS', str(os.cpu_count() or 4)))
-MEM_LIMIT_GB = int(os.environ.get('VERIF_MEM_GB', '14'))
+NCPU = int(os.environ.get('VERIF_JOBS', str(min(8, os.cpu_count() or 4))))
+MEM_LIMIT_GB = int(os.environ.get('VERIF_MEM_GB', '28'))
 
 
 def log(*a):
@@ -546,7 +546,8 @@ def run_check(prop, tier, seed, only=None, write_evidence=True):
         for gi, ((gname, gargs, _uw), hs) in enumerate(sorted(groups.items())):
             tag = '%d-%s' % (gi, re.sub(r'[^A-Za-z0-9]+', '_', gname))
             log('[kani] group %s: %d harness(es) %s' % (gname, len(hs), gargs))
-            res = kani_group(scratch, hs, NCPU, logdir, tag)
+            # groups named heavy* hold obligations that need 20+ GB each: two at a time
+            res = kani_group(scratch, hs, 2 if gname.startswith('heavy') else NCPU, logdir, tag)
             if first:
                 scratch.save_cache()
                 first = False
